@@ -2154,10 +2154,12 @@ func (r *Raft) nextConfiguration(next *Configuration) {
 		}
 	}
 
-	// Create entry for added nodes.
+	// Create entry for added nodes. Replication to a new node starts at the
+	// beginning of the log: a next index of zero would be taken for an index
+	// that is covered by a snapshot and nothing would ever be sent to the node.
 	for id := range next.Members {
 		if _, ok := r.configuration.Members[id]; !ok {
-			r.followers[id] = new(follower)
+			r.followers[id] = &follower{nextIndex: 1}
 		}
 	}
 }
